@@ -45,6 +45,19 @@ func showSlice(s oSlice) string {
 	return out + "]"
 }
 
+// throughArrayPtr: a pointer to an array stands for the array wherever the language
+// dereferences it implicitly (len, cap, index, slice, range).
+func throughArrayPtr(v oval) oval {
+	if r, ok := v.(oRef); ok && (r.cell != nil || r.st != nil) {
+		if sl, ok := r.load().(oSlice); ok && sl.typ != nil {
+			if _, isArr := sl.typ.Underlying().(*types.Array); isArr {
+				return sl
+			}
+		}
+	}
+	return v
+}
+
 func elemType(t types.Type) types.Type {
 	switch u := t.Underlying().(type) {
 	case *types.Slice:
@@ -104,7 +117,7 @@ func (fr *oFrame) builtinCall(call *ast.CallExpr) (oval, bool) {
 	name := builtinName(fr.info, call)
 	switch name {
 	case "len", "cap":
-		v := fr.eval(call.Args[0])
+		v := throughArrayPtr(fr.eval(call.Args[0]))
 		if s, ok := v.(oSlice); ok {
 			if name == "len" {
 				return oInt(s.length()), true
@@ -271,7 +284,7 @@ func (fr *oFrame) builtinCall(call *ast.CallExpr) (oval, bool) {
 
 // indexExpr evaluates x[i] for slices.
 func (fr *oFrame) indexExpr(x *ast.IndexExpr) oval {
-	base := fr.eval(x.X)
+	base := throughArrayPtr(fr.eval(x.X))
 	if m, ok := base.(oMap); ok {
 		v, _ := fr.mapIndex(x, m)
 		return v
@@ -299,7 +312,7 @@ func (fr *oFrame) indexExpr(x *ast.IndexExpr) oval {
 
 // elemRef resolves x[i] to the element struct itself (no copy), for stores like x[i].F = v.
 func (fr *oFrame) elemRef(x *ast.IndexExpr) *oStruct {
-	base := fr.eval(x.X)
+	base := throughArrayPtr(fr.eval(x.X))
 	s, ok := base.(oSlice)
 	if !ok {
 		return nil
@@ -313,7 +326,7 @@ func (fr *oFrame) elemRef(x *ast.IndexExpr) *oStruct {
 }
 
 func (fr *oFrame) sliceExpr(x *ast.SliceExpr) oval {
-	base := fr.eval(x.X)
+	base := throughArrayPtr(fr.eval(x.X))
 	var s oSlice
 	switch b := base.(type) {
 	case oSlice:
@@ -345,12 +358,20 @@ func (fr *oFrame) sliceExpr(x *ast.SliceExpr) oval {
 	if s.arr == nil {
 		return s
 	}
-	return oSlice{typ: s.typ, arr: s.arr, lo: s.lo + lo, hi: s.lo + hi, capEnd: s.lo + mx}
+	typ := s.typ
+	if typ != nil {
+		if _, isArr := typ.Underlying().(*types.Array); isArr {
+			if xt := fr.info.TypeOf(x); xt != nil {
+				typ = xt // a slice of an array is a slice
+			}
+		}
+	}
+	return oSlice{typ: typ, arr: s.arr, lo: s.lo + lo, hi: s.lo + hi, capEnd: s.lo + mx}
 }
 
 // storeIndex performs x[i] = v.
 func (fr *oFrame) storeIndex(x *ast.IndexExpr, v oval) oCtl {
-	base := fr.eval(x.X)
+	base := throughArrayPtr(fr.eval(x.X))
 	if m, ok := base.(oMap); ok {
 		k := fr.eval(x.Index)
 		if isTop(k) {
@@ -385,7 +406,7 @@ func (fr *oFrame) rangeStmt(s *ast.RangeStmt) oCtl {
 	fr.curLabel = ""
 	saved := fr.env
 	defer func() { fr.env = saved }()
-	xv := fr.eval(s.X)
+	xv := throughArrayPtr(fr.eval(s.X))
 	n := 0
 	var sl oSlice
 	switch x := xv.(type) {
